@@ -6,6 +6,7 @@ usage: python -m harness.c13_worker cases.pkl out.pkl reps
 Writes progress markers `C13CASE <id> <rep>` to stderr so that a sanitizer
 report (which aborts the process) can be attributed to a case.
 """
+import os
 import pickle
 import sys
 
@@ -16,47 +17,63 @@ import numpy as np
 from harness import c13_kernels as K
 
 
+def record_main(argv):
+    """--record seed tier out.pkl : drive the Python layer with the recording proxy."""
+    seed, tier, out_path = int(argv[0]), argv[1], argv[2]
+    calls, notes = K.record(seed, tier)
+    with open(out_path, "wb") as f:
+        pickle.dump(dict(calls=calls, notes=notes), f)
+    sys.stderr.write("C13DONE\n")
+
+
 def main(argv):
+    if argv[0] == "--record":
+        return record_main(argv[1:])
     cases_path, out_path, reps = argv[0], argv[1], int(argv[2])
     import phonopy._phonopy as phonoc
 
     with open(cases_path, "rb") as f:
         cases = pickle.load(f)
-    res = dict(variant=bootstrap.VARIANT, use_openmp=int(phonoc.use_openmp()),
-               max_threads=int(phonoc.omp_max_threads()), runs=[])
-    for c in cases:
-        outs_first = None
-        for rep in range(1, reps + 1):
-            sys.stderr.write("C13CASE %d %d\n" % (c["id"], rep))
-            sys.stderr.flush()
-            r = K.replay(c, phonoc)
-            outpos = K.OUTPUTS[c["kernel"]]
-            dig = [K.digest(r["out"][p]) for p in outpos]
-            if r["ret"] is not None:
-                dig.append(repr(r["ret"]))
-            constok = True
-            for i, x in enumerate(c["args"]):
-                if isinstance(x, np.ndarray) and i not in outpos:
-                    if not np.array_equal(x, r["out"][i], equal_nan=(x.dtype.kind == "f")):
-                        constok = False
-            flagok = True
-            fp = K.USE_OPENMP_FLAG.get(c["kernel"])
-            if fp is not None and rep == 1:
-                # the same call with the kernel's own use_openmp flag flipped must give the same bits
-                c2 = dict(c)
-                c2["args"] = list(c["args"])
-                c2["args"][fp] = 0 if c["args"][fp] else 1
-                r2 = K.replay(c2, phonoc)
-                dig2 = [K.digest(r2["out"][p]) for p in outpos]
-                flagok = (dig2 == dig[:len(dig2)]) and r2["guards_ok"] and not r2["err"]
-            run = dict(id=c["id"], rep=rep, digest="-".join(dig), guards=r["guards_ok"], constok=constok,
-                       err=r["err"], flagok=flagok)
-            if rep == 1:
-                run["out"] = {p: np.array(r["out"][p], copy=True) for p in outpos}
-                run["ret"] = r["ret"]
-            res["runs"].append(run)
-    with open(out_path, "wb") as f:
-        pickle.dump(res, f)
+    start_after = int(os.environ.get("C13_START_AFTER", "-1"))
+    # results are streamed (one pickle object per run) so that a crash / sanitizer abort in one
+    # case loses nothing of the earlier ones; the parent restarts after the crashed case
+    with open(out_path, "ab") as fo:
+        pickle.dump(dict(header=True, variant=bootstrap.VARIANT, use_openmp=int(phonoc.use_openmp()),
+                         max_threads=int(phonoc.omp_max_threads())), fo)
+        fo.flush()
+        for c in cases:
+            if c["id"] <= start_after:
+                continue
+            for rep in range(1, reps + 1):
+                sys.stderr.write("C13CASE %d %d\n" % (c["id"], rep))
+                sys.stderr.flush()
+                r = K.replay(c, phonoc)
+                outpos = K.OUTPUTS[c["kernel"]]
+                dig = [K.digest(r["out"][p]) for p in outpos]
+                if r["ret"] is not None:
+                    dig.append(repr(r["ret"]))
+                constok = True
+                for i, x in enumerate(c["args"]):
+                    if isinstance(x, np.ndarray) and i not in outpos:
+                        if not np.array_equal(x, r["out"][i], equal_nan=(x.dtype.kind == "f")):
+                            constok = False
+                flagok = True
+                fp = K.USE_OPENMP_FLAG.get(c["kernel"])
+                if fp is not None and rep == 1:
+                    # the same call with the kernel's own use_openmp flag flipped must give the same bits
+                    c2 = dict(c)
+                    c2["args"] = list(c["args"])
+                    c2["args"][fp] = 0 if c["args"][fp] else 1
+                    r2 = K.replay(c2, phonoc)
+                    dig2 = [K.digest(r2["out"][p]) for p in outpos]
+                    flagok = (dig2 == dig[:len(dig2)]) and r2["guards_ok"] and not r2["err"]
+                run = dict(id=c["id"], rep=rep, digest="-".join(dig), guards=r["guards_ok"], constok=constok,
+                           err=r["err"], flagok=flagok)
+                if rep == 1:
+                    run["out"] = {p: np.array(r["out"][p], copy=True) for p in outpos}
+                    run["ret"] = r["ret"]
+                pickle.dump(run, fo)
+                fo.flush()
     sys.stderr.write("C13DONE\n")
 
 
